@@ -73,3 +73,10 @@ def first_difference(got, exp, eq):
         if not eq(g, x):
             return i
     return min(len(got), len(exp))
+
+
+RULE = (" At scale (pv/scale.py): a share of the generated cases (1 in 8-40, chosen from a digest of the case) is blown up "
+        "after generation - the data rows repeated in order, or one full-length row repeated N times with the original rows "
+        "behind it, N from 65 to 2600 (where wired in: 10001 rows in one group, 33-130 extra fields, 17-60 levels of nesting, "
+        "cells of 9000-70000 characters, chunk sizes giving 70-300 chunk files or chunks of exactly 1000 rows); the oracle is "
+        "unchanged, its reference being computed on the blown-up input. Such cases carry the label 'at-scale' / 'wide'.")
